@@ -1,5 +1,5 @@
 (* Canonical-value predicates and document builders used in the statements about Serde.v. *)
-From OA Require Import Bytes Json ErrorCodes Serde.
+From OA Require Import Bytes Json Lower ErrorCodes Serde.
 From Coq Require Import ZArith Permutation.
 Local Open Scope Z_scope.
 
@@ -14,7 +14,7 @@ Definition opt_scopes_ok (o : option (list bytes)) : bool :=
 (* token types in the image of the case-insensitive parser *)
 Definition tt_canon (t : token_type) : bool :=
   match t with
-  | TExtension s => bytes_eqb (lower s) s && negb (bytes_eqb s (s2b "bearer")) && negb (bytes_eqb s (s2b "mac"))
+  | TExtension s => bytes_eqb (lower_tt s) s && negb (bytes_eqb s (s2b "bearer")) && negb (bytes_eqb s (s2b "mac"))
   | _ => true
   end.
 Definition opt_tt_canon (o : option token_type) : bool :=
